@@ -1,6 +1,7 @@
 import Driver.Sess
 import Driver.Catalog
 import Driver.Concurrency
+import Driver.Cqe
 import Driver.Facet
 import Driver.Field
 import Driver.Keyword
@@ -16,6 +17,7 @@ open Driver
 def sessions : List (String × Sess) := [
   ("catalog", CatalogS.sess),
   ("concurrency", ConcurrencyS.sess),
+  ("cqe", CqeS.sess),
   ("facet", FacetS.sess),
   ("field", FieldS.sess),
   ("keyword", KeywordS.sess),
